@@ -1,5 +1,69 @@
-import SmppVerif.Model.Receipt
+/-
+C20 — Delivery-receipt text parses back to the data it was built from.
+-/
+import SmppVerif.Lemmas.Receipt
+
 namespace SmppVerif.Props.C20
-theorem placeholder : True := trivial
+open SmppVerif SmppVerif.Receipt SmppVerif.Lemmas.Receipt
+
+/-- Parsing the text built from a receipt dictionary returns that dictionary: id, counts,
+    both dates to the minute, state, error code, and the text up to its padding — for every
+    id and state without blanks (colons allowed), every text (blanks and colons allowed),
+    counts/err 0..999, valid dates 1969..2068.  When the text carries no id the
+    receipted_message_id parameter supplies it. -/
+theorem parse_build (r : ReceiptData) (sd dd : Nat × Nat × Nat × Nat × Nat) (w : WFr r sd dd)
+    (esm : Nat) (hesm : isReceipt esm = true) (tlv : Option (List Nat)) :
+    parse esm (build r) tlv
+      = .ok (expected r sd dd (if r.id.isEmpty then tlv.getD [] else r.id)) := by
+  rw [build_eq_nested]
+  exact parse_nested libNames libNames_ok r sd dd w esm hesm tlv
+
+/-- Field names are matched case-insensitively: any ASCII casing of the eight names gives
+    the same dictionary. -/
+theorem key_case_insensitive (n : Names) (hn : n.Ok) (r : ReceiptData)
+    (sd dd : Nat × Nat × Nat × Nat × Nat) (w : WFr r sd dd)
+    (esm : Nat) (hesm : isReceipt esm = true) (tlv : Option (List Nat)) :
+    parse esm (nested n r) tlv = parse esm (build r) tlv := by
+  rw [parse_build r sd dd w esm hesm tlv]
+  exact parse_nested n hn r sd dd w esm hesm tlv
+
+/-- The text field may itself contain blanks and colons: it is taken verbatim to the end. -/
+theorem text_is_last (k v : List Nat) (hk : 58 ∉ k) (hkt : lowerAscii k = kText) :
+    getParam (k ++ 58 :: v) = some (kText, v, []) :=
+  getParam_text k v hk hkt
+
+/-- For any scanned dictionary: an id in the text wins; without one (absent or empty) the
+    receipted_message_id parameter is used. -/
+theorem tlv_fallback (d : RDict) (v : List Nat) :
+    (idMissing d = true → withTlv d (some v) = dictSet d kId (.str v)) ∧
+    (idMissing d = false → withTlv d (some v) = d) ∧ withTlv d none = d := by
+  unfold withTlv
+  refine ⟨fun h => by simp [h], fun h => by simp [h], by split <;> rfl⟩
+
+/-- Fields the library does not know are kept as strings. -/
+theorem unknown_kept (key v : List Nat)
+    (h1 : ¬ (key = kSub ∨ key = kDlvrd ∨ key = kErr)) (h2 : ¬ (key = kSubmitDate ∨ key = kDoneDate)) :
+    convert key v = .ok (.str v) :=
+  convert_str key v h1 h2
+
+/-- A DeliverSm that is not a receipt parses to an empty dictionary. -/
+theorem not_receipt_empty (esm : Nat) (text : List Nat) (tlv : Option (List Nat))
+    (h : isReceipt esm = false) : parse esm text tlv = .ok [] :=
+  not_receipt esm text tlv h
+
+/-- Non-vacuity: the suite's receipt shape with a colon in the id and a text with blanks. -/
+example : WFr ⟨[65, 58, 49], 1, 1, some (2025, 3, 4, 12, 1), some (2068, 2, 29, 23, 59), [68, 69, 76],
+    0, [97, 32, 98, 58, 99]⟩ (2025, 3, 4, 12, 1) (2068, 2, 29, 23, 59) :=
+  ⟨by decide, by decide, by decide, by decide, by decide,
+   ⟨rfl, ⟨by decide, by decide, by decide, by decide, by decide⟩⟩,
+   ⟨rfl, ⟨by decide, by decide, by decide, by decide, by decide⟩⟩⟩
+example : isReceipt 4 = true := by decide
+
 end SmppVerif.Props.C20
-#print axioms SmppVerif.Props.C20.placeholder
+
+#print axioms SmppVerif.Props.C20.parse_build
+#print axioms SmppVerif.Props.C20.key_case_insensitive
+#print axioms SmppVerif.Props.C20.text_is_last
+#print axioms SmppVerif.Props.C20.tlv_fallback
+#print axioms SmppVerif.Props.C20.unknown_kept
+#print axioms SmppVerif.Props.C20.not_receipt_empty
